@@ -1098,7 +1098,7 @@ def check_validators(cx, iid="C03.V"):
         fq = R.body("FrameQueue::advance_transfer_window")
         sinks = write_sites(fq, r"arg1\.transfer_window\.base_id") + call_sites(fq, "FrameQueue::cull_log_entries")
         culls = call_sites(fq, "FrameQueue::cull_log_entries")
-        dl = r"u32::wrapping_sub\(u32::wrapping_sub\(arg1\.window\.base_id,arg1\.window\.tail_size\),FrameLog::base_id\(arg1\.frame_log\)\)"
+        dl = r"u32::wrapping_sub\(u32::wrapping_sub\((?:arg1\.window\.base_id|arg2),arg1\.window\.tail_size\),FrameLog::base_id\(arg1\.frame_log\)\)"
         cx.guard(inst, fq, culls, [[r"ne\(0,%s\)" % dl, r"le\(%s,FrameLog::len\(arg1\.frame_log\)\)" % dl]], construct="log culled beyond its length",
                  why="FrameLog::drain would be asked to remove more frames than the log holds")
         cx.guard(inst, fq, sinks, [[r"FrameQueue::can_advance_transfer_window\(arg1,arg2\)"]], construct="transfer window advance",
